@@ -65,6 +65,11 @@ var checks = map[string]checkSpec{
 		Quick:     30 * time.Second, Thorough: 8 * time.Minute, Level: "exploration",
 		Rule: "PLAIN, SCRAM-SHA-256 and SCRAM-SHA-512 with user names and passwords that need escaping or SASLprep, handshake v0 (raw tokens) and v1 (SaslAuthenticate frames), through Dialer->Conn and through a Transport shared by several goroutines; healthy exchanges and every failure placement (wrong password, unknown user, mechanism not enabled, error code in SaslAuthenticate, malformed server-first / server-final message, connection closed after the handshake or mid-exchange). The broker model reports any non-authentication request that arrives before its hand-written reference server (RFC 4616 / RFC 5802) accepted the exchange; dialling must succeed exactly when that server accepted, and a failed connection must be closed.",
 	},
+	"C13": {
+		Scenarios: []scnSpec{{Name: "balancers", Share: 0.8}, {Name: "writer", Params: "faults=0", Share: 0.2}},
+		Quick:     30 * time.Second, Thorough: 5 * time.Minute, Level: "exploration",
+		Rule: "Concurrent part (simulated): 1-6 goroutines call Balance on one RoundRobin (ChunkSize 0..5, fixed and varying partition counts) or LeastBytes under the seeded scheduler, which owns the interleaving of the balancers' mutexes; the recorded invoke/return history (event sequence numbers) is checked for linearizability against a sequential model with porcupine, followed by an exact quiescent continuation of the round-robin cycle; Hash / ReferenceHash with a caller-supplied hasher that yields inside Write are shared by 2-5 goroutines. Hash part (seeded input generation, not simulation): keys of every length mod 4, high-bit bytes, nil versus empty, partition counts 1..1000 against independent re-implementations of Sarama's FNV-1a partitioners, librdkafka's CRC32 partitioner and Java's murmur2 toPositive % n. Monitor: every Balance call a Writer makes in the writer scenario is compared with the same references and must return an offered partition.",
+	},
 	"C07": {
 		Scenarios: []scnSpec{{Name: "writer", Params: "focus=order", Share: 1}},
 		Quick:     35 * time.Second, Thorough: 10 * time.Minute, Level: "exploration",
